@@ -677,8 +677,16 @@ func aggRecVals(r *Rng, T []int, kind int) string {
 			v[fi] = s
 		}
 	}
-	srcSide := func() { set(1, hexs("pod1")); set(2, "-"); set(7, "-"); set(8, "-") }
-	dstSide := func() { set(1, "-"); set(2, hexs("pod2")); set(5, "-"); set(6, "-") }
+	// the Pod behind an address may be replaced or renamed while the 5-tuple is reused: a node's
+	// records of one flow do not always name the same Pod
+	name := func(base string) string {
+		if r.Intn(4) == 0 {
+			return hexs(base + []string{"-new", "b", "-7f9"}[r.Intn(3)])
+		}
+		return hexs(base)
+	}
+	srcSide := func() { set(1, name("pod1")); set(2, "-"); set(7, "-"); set(8, "-") }
+	dstSide := func() { set(1, "-"); set(2, name("pod2")); set(5, "-"); set(6, "-") }
 	switch kind {
 	case 0:
 		set(0, "1")
